@@ -202,7 +202,10 @@ pub fn main(args: &BTreeMap<String, String>) {
     let mut w = Want { cfgs: false, workers: false, limits: false, perms: false };
     match focus {
         "c01" => {}
-        "c02" => w.cfgs = true,
+        "c02" => {
+            w.cfgs = true;
+            o.p_sibling = 0.5;
+        }
         "c03" => {
             w.workers = true;
             o.p_agg = 0.5;
